@@ -74,6 +74,9 @@ def walk(desc, parsed, files, path, out):
                 continue  # handled at the envelope level
             walk(v, sub, files, path + [k], out)
     elif isinstance(desc, list):
+        # a command-sequence item holding several commands is rendered by parse as one item per command
+        desc = [x for v in desc for x in ([{k: a} for k, a in v.items()] if isinstance(v, dict) and len(v) > 1 and
+                                          all(k.startswith(("suit-condition-", "suit-directive-")) for k in v) else [v])]
         for i, v in enumerate(desc):
             walk(v, parsed[i] if isinstance(parsed, list) and i < len(parsed) else None, files, path + [i], out)
 
